@@ -1,4 +1,220 @@
-//! C06: closed pull pipelines (filled in later)
-pub fn run_pipeline(_line: &str) -> String {
-    String::new()
+//! C06: closed pull pipelines `pipe!(from_iter(xs), stages.., for_each(f))` on the real crate.
+//!
+//! input line : "xs=1,2,3 inf=- stages=map:2:1;filter:2:0;take:2"
+//! output line: "F: user:3 user:7 nexts=4 | P: user:3 user:7 nexts=4 done=1"
+//!   F = the crate's own for_each as the consumer; P = a for_each-like probe sink that also
+//!   sees the completion.  `nexts` = number of Iterator::next calls on the input.
+
+use std::cell::RefCell;
+use std::panic::{catch_unwind, AssertUnwindSafe};
+use std::sync::Arc;
+
+use callbag::{concat, filter, flatten, for_each, from_iter, map, pipe, scan, skip, take, Message, Source};
+use never::Never;
+
+thread_local! {
+    static OUT: RefCell<Vec<String>> = RefCell::new(vec![]);
+    static NEXTS: RefCell<u64> = RefCell::new(0);
+    static TB: RefCell<Option<Arc<Source<usize>>>> = RefCell::new(None);
+    static DONE: RefCell<bool> = RefCell::new(false);
+}
+
+#[derive(Clone, Debug)]
+struct CountIter {
+    xs: Arc<Vec<u64>>,
+    inf: Option<u64>,
+    pos: usize,
+}
+impl Iterator for CountIter {
+    type Item = usize;
+    fn next(&mut self) -> Option<usize> {
+        let n = NEXTS.with(|n| {
+            *n.borrow_mut() += 1;
+            *n.borrow()
+        });
+        if n > 100_000 {
+            panic!("pipeline does not terminate");
+        }
+        let r = if self.pos < self.xs.len() {
+            Some(self.xs[self.pos] as usize)
+        } else {
+            self.inf.map(|b| (b as usize) + (self.pos - self.xs.len()))
+        };
+        self.pos += 1;
+        r
+    }
+}
+
+fn inner_vec(m: usize, x: usize) -> Vec<usize> {
+    if m == 0 {
+        vec![x]
+    } else {
+        (0..(x % m)).map(|j| x + j).collect()
+    }
+}
+
+type Src = Arc<Source<usize>>;
+
+fn apply_stage(src: Src, st: &str) -> Src {
+    let parts: Vec<&str> = st.split(':').collect();
+    let num = |i: usize| -> usize { parts.get(i).and_then(|s| s.parse().ok()).unwrap_or(0) };
+    let list = |i: usize| -> Vec<usize> {
+        parts
+            .get(i)
+            .map(|s| crate::parse_list(s).into_iter().map(|x| x as usize).collect())
+            .unwrap_or_default()
+    };
+    match parts[0] {
+        "map" => {
+            let (a, b) = (num(1), num(2));
+            Arc::new(map(move |x: usize| a * x + b)(src))
+        }
+        "filter" => {
+            let (m, r) = (num(1), num(2));
+            Arc::new(filter(move |x: &usize| *x % m == r)(src))
+        }
+        "scan" => {
+            let (k, seed) = (num(1), num(2));
+            Arc::new(scan(
+                move |acc: usize, x: usize| match k {
+                    0 => acc + x,
+                    1 => std::cmp::max(acc, x),
+                    _ => 2 * acc + x,
+                },
+                seed,
+            )(src))
+        }
+        "take" => Arc::new(take(num(1))(src)),
+        "skip" => Arc::new(skip(num(1))(src)),
+        "append" => {
+            let ys: Src = Arc::new(from_iter(list(1)));
+            Arc::new(concat(vec![src, ys].into_boxed_slice()))
+        }
+        "prepend" => {
+            let ys: Src = Arc::new(from_iter(list(1)));
+            Arc::new(concat(vec![ys, src].into_boxed_slice()))
+        }
+        "flatmap" => {
+            let m = num(1);
+            let mapped: Arc<Source<Src>> =
+                Arc::new(map(move |x: usize| -> Src { Arc::new(from_iter(inner_vec(m, x))) })(src));
+            Arc::new(flatten(mapped))
+        }
+        other => panic!("unknown stage {}", other),
+    }
+}
+
+fn rec(s: String) {
+    OUT.with(|o| o.borrow_mut().push(s));
+}
+
+fn reset() {
+    OUT.with(|o| o.borrow_mut().clear());
+    NEXTS.with(|n| *n.borrow_mut() = 0);
+    TB.with(|t| *t.borrow_mut() = None);
+    DONE.with(|d| *d.borrow_mut() = false);
+}
+
+fn build(kv: &crate::Kv) -> Src {
+    let xs = crate::parse_list(kv.get("xs").map(|s| s.as_str()).unwrap_or("-"));
+    let inf = match kv.get("inf").map(|s| s.as_str()) {
+        None | Some("-") => None,
+        Some(b) => Some(b.parse::<u64>().unwrap()),
+    };
+    let mut src: Src = Arc::new(from_iter(CountIter {
+        xs: Arc::new(xs),
+        inf,
+        pos: 0,
+    }));
+    let stages = kv.get("stages").cloned().unwrap_or_default();
+    for st in stages.split(';').filter(|s| !s.is_empty() && *s != "-") {
+        src = apply_stage(src, st);
+    }
+    src
+}
+
+/// a for_each-like consumer that also records the completion
+fn probe() -> Arc<callbag::Sink<usize>> {
+    Arc::new(
+        (move |msg: Message<usize, Never>| match msg {
+            Message::Handshake(tb) => {
+                TB.with(|t| *t.borrow_mut() = Some(Arc::clone(&tb)));
+                tb(Message::Pull);
+            }
+            Message::Data(x) => {
+                rec(format!("user:{}", x));
+                let tb = TB.with(|t| t.borrow().clone());
+                if let Some(tb) = tb {
+                    tb(Message::Pull);
+                }
+            }
+            Message::Terminate => DONE.with(|d| *d.borrow_mut() = true),
+            Message::Error(_) => rec("ERROR".to_string()),
+            Message::Pull => rec("?Pull".to_string()),
+        })
+        .into(),
+    )
+}
+
+fn finish(with_done: bool) -> String {
+    let mut toks = OUT.with(|o| o.borrow().clone());
+    toks.push(format!("nexts={}", NEXTS.with(|n| *n.borrow())));
+    if with_done {
+        toks.push(format!("done={}", if DONE.with(|d| *d.borrow()) { 1 } else { 0 }));
+    }
+    toks.join(" ")
+}
+
+/// pipe! itself is plain left-to-right application: fixed pipelines written with the macro,
+/// printed in the same format as a dynamic pipeline with the same stages
+fn static_pipe(which: &str, src: Src) -> Option<()> {
+    let f = for_each(move |x: usize| rec(format!("user:{}", x)));
+    match which {
+        "1" => {
+            pipe!(src, map(|x: usize| 2 * x + 1), f);
+        }
+        "2" => {
+            pipe!(src, filter(|x: &usize| *x % 2 == 0), map(|x: usize| x + 3), take(2), f);
+        }
+        "3" => {
+            pipe!(
+                src,
+                skip(1),
+                scan(|a: usize, x: usize| a + x, 0),
+                |s: Source<usize>| pipe!(s, map(|x: usize| 3 * x)),
+                f
+            );
+        }
+        _ => return None,
+    }
+    Some(())
+}
+
+pub fn run_pipeline(line: &str) -> String {
+    let kv = crate::parse_header(line);
+    let src = build(&kv);
+    // F: the crate's for_each
+    reset();
+    let r = catch_unwind(AssertUnwindSafe(|| {
+        if let Some(which) = kv.get("static") {
+            // the base source only; the stages are written with pipe! in static_pipe
+            let xs = crate::parse_list(kv.get("xs").map(|s| s.as_str()).unwrap_or("-"));
+            let base: Src = Arc::new(from_iter(CountIter {
+                xs: Arc::new(xs),
+                inf: None,
+                pos: 0,
+            }));
+            static_pipe(which, base);
+        } else {
+            for_each(move |x: usize| rec(format!("user:{}", x)))(Arc::clone(&src));
+        }
+    }));
+    let f = if r.is_err() { "PANIC".to_string() } else { finish(false) };
+    // P: the probe
+    reset();
+    let r = catch_unwind(AssertUnwindSafe(|| {
+        src(Message::Handshake(probe()));
+    }));
+    let p = if r.is_err() { "PANIC".to_string() } else { finish(true) };
+    format!("F: {} | P: {}", f, p)
 }
